@@ -47,6 +47,21 @@ theorem stop_writes (g : GW) (hp : g.persist = true) (hc : Clean g) :
   · exact ((save_spec g).2.2.1 hp h).1
   · simp only [step]; rw [(save_spec g).2.2.2 (fun hh => h hh.2)]; exact hc hp (by simpa using h)
 
+/-- the shutdown window at gateway level: lines the pump still handles after `stop()` has taken the
+    connection down are ordinary steps of the model (what they would send is dropped by the transport, see
+    `C14.nothing_handed_after_disconnect`); the final save that follows writes the state they left, so the
+    restart reproduces it.  (The order of the two actions inside stop() and the dirty-flag protocol of a
+    save that overlaps with handled lines are the subject of Properties/C14Stop.lean.) -/
+theorem stop_covers_late_lines (c : ConstId) (k : Kind) (pre : List Op) (late : List Str) :
+    let g := run (freshGW c k) (pre ++ late.map Op.line)
+    (step g .stop).1.disk = some g.persisted ∧ (restart (step g .stop).1).persisted = g.persisted := by
+  intro g
+  have hk := (freshGW_inv c k).1
+  have hc := (freshGW_inv c k).2
+  refine ⟨stop_writes g ?_ (clean_invariant _ _ hk hc), clean_stop_loses_nothing_fresh c k _⟩
+  show (run (freshGW c k) (pre ++ late.map Op.line)).persist = true
+  rw [persist_run _ _ hk]; rfl
+
 /-! Non-vacuity: an id request right after a periodic save (the history that lost the node
     before the `fix:` commit) is covered, and the file really changes. -/
 
